@@ -1,6 +1,7 @@
 package zzh
 
 import (
+	"sort"
 	"strings"
 
 	"MODULE/restlicodec"
@@ -35,3 +36,52 @@ func Harness_C06_QueryParams() {
 	verif.Cover("decoded")
 }
 
+
+// Harness_C06_QueryRecordParams: query parameters whose values are records
+// (crit: Leaf required, other: Leaf optional) next to a plain required one
+// (lim2): every missing required field - of the parameters themselves and
+// inside the record values - is reported in one error, by full path, and the
+// parameters that are present are still decoded.
+func Harness_C06_QueryRecordParams() {
+	hasCrit, critV := verif.Bool(), verif.Bool()
+	hasOther, otherV := verif.Bool(), verif.Bool()
+	hasLim := verif.Bool()
+	qs := []string{"q=crit"}
+	var want []string
+	if hasCrit {
+		if critV {
+			qs = append(qs, "crit=(v:x)")
+		} else {
+			qs = append(qs, "crit=()")
+			want = append(want, "crit.v")
+		}
+	} else {
+		want = append(want, "crit")
+	}
+	if hasOther {
+		if otherV {
+			qs = append(qs, "other=(v:y)")
+		} else {
+			qs = append(qs, "other=(w:1)")
+			want = append(want, "other.v")
+		}
+	}
+	if hasLim {
+		qs = append(qs, "lim2=4")
+	} else {
+		want = append(want, "lim2")
+	}
+	p, err := c06DecodeCrit(strings.Join(qs, "&"))
+	if len(want) == 0 {
+		verif.Assert(err == nil && p != nil && p.Crit.V == "x" && p.Lim2 == 4, "a complete query was rejected or decoded wrongly")
+		verif.Cover("complete")
+		return
+	}
+	mf, ok := err.(*restlicodec.MissingRequiredFieldsError)
+	verif.Assert(ok, "missing required query parameters / fields not reported as one MissingRequiredFieldsError")
+	got := append([]string(nil), mf.Fields...)
+	sort.Strings(got)
+	sort.Strings(want)
+	verif.Assert(strings.Join(got, " ") == strings.Join(want, " "), "missing set is ["+strings.Join(got, " ")+"] want ["+strings.Join(want, " ")+"] for "+strings.Join(qs, "&"))
+	verif.Cover("missing-reported")
+}
